@@ -46,6 +46,8 @@ namespace sim
          bool success_threw = false;
          // limits
          bool lb_active = false;  // byte guard exists (between this frame's ENTER and EXIT events)
+         // hooks of an action derived from control_action
+         int ca_starts = 0, ca_closings = 0, ca_closing = -1;
       };
 
       const char* rule_name( std::uint32_t r )
@@ -335,8 +337,11 @@ namespace sim
                      expect_af = 2;
                   }
                   std::uint8_t expect_cf = top->cfam;
-                  if( top->cls == RC::W_CHANGE_CONTROL || top->cls == RC::CONTROL ) {
+                  if( top->cls == RC::W_CHANGE_CONTROL ) {
                      expect_cf = 2;
+                  }
+                  else if( top->cls == RC::CONTROL ) {
+                     expect_cf = static_cast< std::uint8_t >( g_rules[ top->rule ].p0 > 0 ? g_rules[ top->rule ].p0 : 2 );
                   }
                   if( e.afam != expect_af ) {
                      cx.viol( "C13.seen", "action-family:" + head_name( top->rule ), i, "action family " + std::to_string( e.afam ) + " in effect for " + short_name( e.rule ) + " under " + short_name( top->rule ) + ", expected " + std::to_string( expect_af ) );
@@ -571,7 +576,7 @@ namespace sim
                   }
                   else {
                      if( fr.closings == 0 ) {
-                        if( hook_cf == 1 ) {
+                        if( hook_cf != 2 ) {
                            cx.viol( "C08.balance", hn, i, "exception passed through " + short_name( fr.rule ) + " after start, but the control saw neither success, failure nor unwind" );
                         }
                      }
@@ -588,7 +593,7 @@ namespace sim
                      }
                      else {
                         ++f.unwinds;
-                        if( hook_cf != 1 ) {
+                        if( hook_cf == 2 ) {
                            cx.viol( "C08.truth", hn, i, "unwind reported by a control without unwind()" );
                         }
                      }
@@ -599,6 +604,23 @@ namespace sim
                }
                if( fr.action_result == 0 && e.kind == Ev::EXIT && result && hooks_expected ) {
                   cx.viol( "C08.apply", hn, i, short_name( fr.rule ) + " succeeded although its action returned false" );
+               }
+
+               // ---------------- C08: action-level hook protocol of control_action
+               if( fr.cls == RC::W_CONTROL_ACTION ) {
+                  const bool with_unwind = ( g_rules[ fr.rule ].p0 == 0 );
+                  if( fr.ca_starts != 1 ) {
+                     cx.viol( "C08.action-hooks", hn, i, "the control_action of " + short_name( fr.rule ) + " saw start " + std::to_string( fr.ca_starts ) + " times" );
+                  }
+                  else if( e.kind == Ev::EXIT ) {
+                     const int want = int( result ? Ev::CA_SUCCESS : Ev::CA_FAILURE );
+                     if( fr.ca_closings != 1 || fr.ca_closing != want ) {
+                        cx.viol( "C08.action-hooks", hn, i, short_name( fr.rule ) + " returned " + ( result ? "true" : "false" ) + " but its control_action saw " + ( fr.ca_closings == 0 ? std::string( "no closing hook" ) : std::to_string( fr.ca_closings ) + " closing hook(s), last " + ev_name( Ev( fr.ca_closing ) ) ) );
+                     }
+                  }
+                  else if( with_unwind ? ( fr.ca_closings != 1 || fr.ca_closing != int( Ev::CA_UNWIND ) ) : ( fr.ca_closings != 0 ) ) {
+                     cx.viol( "C08.action-hooks", hn, i, "exception passed through " + short_name( fr.rule ) + " and its control_action (" + ( with_unwind ? "with" : "without" ) + " unwind) saw " + ( fr.ca_closings == 0 ? std::string( "no closing hook" ) : std::to_string( fr.ca_closings ) + " closing hook(s), last " + ev_name( Ev( fr.ca_closing ) ) ) );
+                  }
                }
 
                // ---------------- C13: scopes opened in this frame are closed
@@ -673,6 +695,38 @@ namespace sim
                   }
                   if( e.sid != 0 && top->cur_sid != 0 && e.sid != top->cur_sid ) {
                      cx.viol( "C13.seen", "state:" + head_name( e.rule ), i, std::string( ev_name( e.kind ) ) + " of " + short_name( e.rule ) + " receives state #" + std::to_string( e.sid ) + ", innermost open state is #" + std::to_string( top->cur_sid ) );
+                  }
+               }
+               break;
+            }
+
+            case Ev::CA_START:
+            case Ev::CA_SUCCESS:
+            case Ev::CA_FAILURE:
+            case Ev::CA_UNWIND: {
+               if( top == nullptr || top->rule != e.rule ) {
+                  cx.viol( "C08.action-hooks", head_name( e.rule ), i, std::string( ev_name( e.kind ) ) + " for " + short_name( e.rule ) + " while the innermost open rule is " + ( top ? short_name( top->rule ) : std::string( "none" ) ) );
+                  break;
+               }
+               if( e.kind == Ev::CA_START ) {
+                  ++top->ca_starts;
+                  if( top->starts != 0 || top->children != 0 ) {
+                     cx.viol( "C08.action-hooks", head_name( e.rule ), i, "action-level start of " + short_name( e.rule ) + " after the rule had been started" );
+                  }
+               }
+               else {
+                  ++top->ca_closings;
+                  top->ca_closing = int( e.kind );
+                  // the action-level closing hook follows the control's closing hook of the same kind
+                  const int want = ( e.kind == Ev::CA_SUCCESS ) ? int( Ev::SUCCESS ) : int( Ev::FAILURE );
+                  if( top->ca_starts != 1 ) {
+                     cx.viol( "C08.action-hooks", head_name( e.rule ), i, std::string( ev_name( e.kind ) ) + " of " + short_name( e.rule ) + " without action-level start" );
+                  }
+                  else if( g_rules[ e.rule ].enable && e.kind != Ev::CA_UNWIND && top->closing != want ) {
+                     cx.viol( "C08.action-hooks", head_name( e.rule ), i, std::string( ev_name( e.kind ) ) + " of " + short_name( e.rule ) + " but the control's closing hook was " + ( top->closing < 0 ? "missing" : ev_name( Ev( top->closing ) ) ) );
+                  }
+                  if( has_pos && e.kind == Ev::CA_FAILURE && ( top->flags & F_REQUIRED ) && e.pos != top->pos ) {
+                     cx.viol( "C08.action-hooks", head_name( e.rule ), i, "action-level failure of " + short_name( e.rule ) + " reported at " + pos_str( e ) + ", the attempt started at " + pos_str( h[ top->enter ] ) );
                   }
                }
                break;
@@ -883,6 +937,10 @@ namespace sim
             case Ev::SOFT: {
                static const char* what[] = { "?", "peek beyond the available data", "bump beyond the available data", "bump_in_this_line beyond the available data", "bump_to_next_line beyond the available data", "input end set outside the data", "reader asked to write outside the buffer", "action input span outside the available data" };
                const std::uint32_t w = static_cast< std::uint32_t >( e.x );
+               if( w == 8 ) {
+                  cx.viol( "C08.adaptor", top ? head_name( top->rule ) : "none", i, "a state-shuffling control adaptor handed its base control the states in order " + std::to_string( e.y ) + " (1 = first tag, 2 = state, 3 = last tag) in " + ( top ? short_name( top->rule ) : std::string( "none" ) ) );
+                  break;
+               }
                cx.viol( w == 6 ? "C03.reader" : "C03.soft", top ? head_name( top->rule ) : "none", i, std::string( what[ w < 8 ? w : 0 ] ) + " (value " + std::to_string( e.y ) + ") at " + pos_str( e ) + " in " + ( top ? short_name( top->rule ) : std::string( "none" ) ) );
                break;
             }
